@@ -11,8 +11,8 @@ import time
 from . import common as C
 from . import advcorpus, gen, l2
 
-SIZES = {"quick": dict(npkgs=14, per_pkg=5, typecheck=10**6),
-         "thorough": dict(npkgs=120, per_pkg=8, typecheck=10**6)}
+SIZES = {"quick": dict(npkgs=14, per_pkg=5, repeat=1, repeat_adv=5, fmt_every=4),
+         "thorough": dict(npkgs=120, per_pkg=8, repeat=10, repeat_adv=60, fmt_every=1)}
 
 def strip_vendor(p):
     parts = p.split("/vendor/")
@@ -71,6 +71,9 @@ def run(tools, seed, tier):
                 c.setdefault("tags", []).append("random")
             cases = gen.shape_cases(root) + advcorpus.write_all(root, gen.write) + repo_corpus_cases(tools) + cases
             byid = {c["id"]: c for c in cases}
+            for k, c in enumerate(cases):
+                c["repeat"] = sz["repeat_adv"] if "adv" in (c.get("tags") or []) else sz["repeat"]
+                c["fmts"] = (k % sz["fmt_every"] == 0)
             obs = l2.run_impl(tools, cases, root)
             t_impl = time.time() - t0
             # facts + type check of every output
@@ -125,6 +128,7 @@ def run(tools, seed, tier):
                 mi = re.match(r'\(mkInput \(mkPkg "([^"]*)" "([^"]*)"\)', inp)
                 res["cases"].append(dict(
                     case=c, kind=o["kind"], text=o["text"], ms=o.get("ms"),
+                    repeats=o.get("repeats", 0), nondet=o.get("nondet"), fmt=o.get("fmt"),
                     src_pkg=dict(path=mi.group(1), name=mi.group(2)) if mi else {},
                     pkg_names={strip_vendor(a): b for a, b in pk},
                     skipped=skipped.get(o["id"]), verdict=verdict,
